@@ -277,6 +277,7 @@ PROPS['C13'] = {
 
 PROPS['C05'] = {
     'functions': sorted(set(LOCK_VM + ['functions.OP_TAPROOT'] + HELPERS + CLASSES + ERRORS)),
+    'reject': [r'ks-frame'],          # (C08's clause; the control instructions are finding D5 there)
     'select': [r'^lemma/C05/', r'^templates/', r'^functions\.OP_TAPROOT/', r'^bounded/C05/',
                r'^functions\.(clamp_scalar|derive_point_from_scalar|aggregate_points)/'],
     'trusted_base': TRUSTED_COMMON + ['libsodium point / scalar arithmetic: uninterpreted functions with the argument checks '
@@ -294,6 +295,7 @@ PROPS['C05'] = {
 PROPS['C04'] = {
     'functions': sorted(set(LOCK_VM + ['functions.OP_MERKLEVAL', 'functions.OP_SWAP2', 'functions.OP_XOR',
                                        'functions.xor'] + CLASSES + ERRORS)),
+    'reject': [r'ks-frame'],          # (C08's clause; the control instructions are finding D5 there)
     'select': [r'^lemma/C04/', r'^templates/', r'^functions\.OP_MERKLEVAL/', r'^functions\.xor/', r'^bounded/C04/'],
     'trusted_base': TRUSTED_COMMON + ['sha256: uninterpreted function with 32-byte output'],
     'assumptions': ASSUME_COMMON + LOCK_ASSUME + [
@@ -305,4 +307,26 @@ PROPS['C04'] = {
     'explanation': 'OP_MERKLEVAL body refines "error, nothing evaluated, unless xor(sha256(sibling), sha256(sha256(script))) '
                    '== root; then OP_EVAL(script)"; xor verified byte-wise by loop invariant; one-level lock / witness '
                    'lemma: the supplied script starts only if it is committed, and then it does',
+}
+
+
+PROPS['C15'] = {
+    'functions': sorted(set(LOCK_VM + ['functions.OP_CHECK_TIMESTAMP_VERIFY', 'functions.OP_CHECK_TIMESTAMP',
+                                       'functions.OP_EQUAL'] + CLASSES + ERRORS)),
+    'select': [r'^lemma/C15/', r'^templates/', r'^functions\.(OP_CHECK_TIMESTAMP(_VERIFY)?|OP_IF_ELSE|OP_CHECK_SIG)/refine'],
+    'trusted_base': TRUSTED_COMMON + ['E4: Ed25519 verification is an uninterpreted predicate', 'time(): ghost integer `now`',
+                                      'sha256 / shake256: uninterpreted functions with fixed output length'],
+    'assumptions': ASSUME_COMMON + LOCK_ASSUME + [
+        'the timestamp operand is 4 or 5 bytes long (creation time + timeout below 2**39; int(time()) today needs 4); the '
+        'refund window is stated as the C16 window of OP_CHECK_TIMESTAMP_VERIFY (t >= ts and t - now < 60)',
+        'HTLC layout 2 (receiver / refund keys committed by hash) and the tweak-point arithmetic of PTLC witnesses '
+        '(sign_with_scalar on x + t) are not covered by a lemma: builders exercised natively only (not counted)',
+        'a wrong preimage selects the refund path (that is what the lock does); "rejected" then means the refund '
+        'conditions do not hold',
+    ],
+    'extra': ['props.lemmas_locks:c15_locks'],
+    'explanation': 'for ALL digests, keys, timestamps operands, flag bytes, sigfields, execution timestamps and witness '
+                   'bytes: the HTLC locks (sha256, shake256) accept exactly (preimage hashes to the digest and receiver\'s '
+                   'signature) or (it does not, timeout reached within the C16 window, refund key\'s signature); the PTLC lock '
+                   'accepts exactly the receiver\'s signature on the claim path and, after the timeout, the refund key\'s',
 }
